@@ -30,6 +30,11 @@ ENC = "self_encryption::encrypt"
 def run(R):
     F = R.F
     chunk_rules(R, "C14")
+    # "for every byte string large enough ... returns the original bytes": the wrappers around the self_encryption crate have no
+    # refusal of their own — every Err they answer is a failed call (the crate's too-small check, a failed fetch, a failed decode)
+    for fn, what in ((SE + "encrypt", "encrypt"), (SE + "pack_data_map", "pack_data_map"), (CL + "fetch_from_data_map", "fetch_from_data_map"),
+                     (CL + "fetch_from_data_map_chunk", "fetch_from_data_map_chunk")):
+        R.only_propagated_errors("C14.total." + what, fn, "%s answers Err only where one of its fallible calls failed (no size / count / depth limit of its own)" % what)
     # (1) chunks built by Chunk::new
     for fn in (SE + "encrypt", SE + "pack_data_map"):
         sites = [c for b in F.item(fn) for c in b.calls if c["ncallee"] == CH + "::new"]
